@@ -4,7 +4,8 @@ CONSTANTS
   MaxOps = 4
   MaxFlush = 2
   MaxCrash = 2
+  MaxRevert = 1
   RootFirst = FALSE
 SPECIFICATION Spec
-INVARIANTS Atomic Layout AppendOnly
+INVARIANTS Atomic Layout AppendOnly Settled
 CHECK_DEADLOCK FALSE
